@@ -99,6 +99,10 @@ def cases(tier, seed):
                           "hydrogens": ["none", "none", "some"], "variant_prob": 0.05,
                           "pool": ["ARG", "LYS", "GLU", "GLN", "MET", "ILE", "LEU", "TRP", "PHE", "TYR", "HIS", "ASN",
                                    "ASP", "THR", "VAL", "SER", "PRO", "PRO"]}})
+        if i % 3 == 1:
+            # residues that share their number and differ only by insertion code (13, 13A): a residue is chain +
+            # number + insertion code everywhere, in the debumper's bookkeeping too
+            out[-1]["p"]["icode_prob"] = 1.0
         if i % 6 == 2:
             # long / ring side chains at the chain ends (terminal torsions and caps meet deep side-chain torsions)
             out[-1]["p"]["nterm_pool"] = ["ARG", "TRP", "ARG", "TRP", "LYS", "MET", "GLN"]
